@@ -107,8 +107,9 @@ class SourceJoin(MVPN):
         return f'{self._prefix()}:{self.rd._str()}:{self.source_as!s}:{self.source!s}:{self.group!s}'
 
     def __hash__(self) -> int:
-        # Direct _packed hash - include afi since MVPN supports both IPv4 and IPv6
-        return hash((self.afi, self._packed))
+        # the fields __eq__ compares, nothing else: two routes which compare equal must hash alike
+        # (afi kept since MVPN supports both IPv4 and IPv6)
+        return hash((self.afi, self.CODE, self.rd.pack_rd(), self.source.pack_ip(), self.group.pack_ip()))
 
     @classmethod
     def unpack_mvpn(cls, packed: Buffer, afi: AFI) -> 'MVPN':
